@@ -285,6 +285,7 @@ L_SERVES = {
     'witness': [],
     'lem_pace': ['C09'],
     'lem_dtor': ['C04', 'C05', 'C11'],
+    'lem_more': ['C05', 'C10'],
     'bcast_p': ['C09'],
 }
 L_SERVES_FN = {
@@ -302,6 +303,7 @@ def lemma_serves(mod, fn):
 
 
 THEOREM_SERVES = {
+    'theorem_c05_is_dropped_never_reverts': ['C05'], 'lemma_marks_mono': ['C05'], 'theorem_c10_mutator_side_never_decreases_debt': ['C10'],
     'theorem_projection_of_held_pointers': ['C01', 'C05', 'C06', 'C07'], 'theorem_projection_of_cursor': ['C01', 'C04', 'C08'],
     'theorem_traced_credit_available': ['C10', 'C06'],
     'lemma_requeue_parts': ['C11'], 'theorem_c11_trace_panic_preserves_inv': ['C11', 'C10'],
